@@ -248,10 +248,11 @@ Proof. vm_compute. reflexivity. Qed.
    its leave_all blocks on the entry; the join commits (7 is a member for a moment); the
    exit removes it; at XDone 7 is nowhere *)
 Definition ex_sched : list label :=
-  [LT 0; LT 0; LT 0; LT 0; LX 7; LX 7; LX 7; LX 7; LX 7; LX 7; LT 0; LT 0; LX 7; LX 7; LX 7; LT 0; LT 0].
+  [LT 0; LT 0; LT 0; LT 0; LX 7; LX 7; LX 7; LX 7; LX 7; LX 7; LT 0; LT 0]
+  ++ repeat (LX 7) 8 ++ repeat (LT 0) 5.
 Example ex_race_mid :
   let c := crun (cinit [CJoin 1 1 [7]]) (firstn 12 ex_sched) in
-  mem_of (c_pg c) (1, 1) = [7] /\ p_dead (c_pg c) 7 = true /\ c_x c 7 = XL [(1, 1)].
+  mem_of (c_pg c) (1, 1) = [7] /\ p_dead (c_pg c) 7 = true /\ c_x c 7 = XL [(1, 1)] [].
 Proof. vm_compute. auto. Qed.
 Example ex_race_end :
   let c := crun (cinit [CJoin 1 1 [7]]) ex_sched in
@@ -260,7 +261,18 @@ Example ex_race_end :
 Proof. vm_compute. auto. Qed.
 (* the exit really blocks while the join holds the entry *)
 Example ex_race_blocked :
-  c_x (crun (cinit [CJoin 1 1 [7]]) (firstn 10 ex_sched)) 7 = XL [(1, 1)].
+  c_x (crun (cinit [CJoin 1 1 [7]]) (firstn 10 ex_sched)) 7 = XL [(1, 1)] [].
+Proof. vm_compute. reflexivity. Qed.
+
+(* observation O2 in the model (the real code shows the same order, docs/notes/C11.md): actor 3
+   monitors group (1,1); the join of 7 has released the entry but not yet notified; 7 exits
+   completely (its automatic Leave is sent); then the join sends its Join: the monitor is told
+   Leave [7] and afterwards Join [7].  The property constrains recipients and payload, not the
+   order of notifications of different calls. *)
+Example ex_O2_order :
+  clog (cinit [CMon 1 3; CJoin 1 1 [7]])
+       (repeat (LT 0) 3 ++ repeat (LT 1) 7 ++ repeat (LX 7) 12 ++ repeat (LT 1) 4)
+  = [mkEv 3 false 1 1 [7]; mkEv 3 true 1 1 [7]].
 Proof. vm_compute. reflexivity. Qed.
 
 Print Assumptions C11_refines_set.
